@@ -13,6 +13,12 @@ R-EFFECT  the writes reachable from formulate go to fresh objects or to the scra
           object on every path), scratch state, or its own argument for which the same holds.
           An extracted helper therefore behaves like the code it was extracted from, while an
           element of a container, object state or a cached object handed to it is still reported.
+          The RECEIVER of a method is such a parameter (``Survival``): a write to ``self.<field>`` happens to
+          whatever stands before the dot at the call sites (the builder for the builder's own methods - reported;
+          the scratch state / an object created during the call for the methods of those classes), and a local
+          name stands for what it was bound to.  The scratch state may also be re-bound to the result of a
+          constructor function (``fresh_instance_calls``: every return is a new instance whose fields get new
+          containers), and reset() may call the factories that the class body declares.
 R-ORDER   no unordered container with hash-seed-sensitive elements reaches an order-
           preserving sink without sorted().
 R-CANON   every mapping field of HelicityModel has a converter that returns, on every path, a new
@@ -568,8 +574,116 @@ def reset_fresh_fields(tree: Tree, reset: FuncInfo, fields: list[str]) -> dict[s
                     ok = isinstance(key, ast.Name) and key.id == st.target.id
                 if ok:
                     for n in names:
-                        fresh[n] = _new_container(sa_[1])
+                        fresh[n] = _new_container(sa_[1]) or (via_name_attr and _calls_own_factory(reset, sa_[1], st.target.id, n))
     return fresh
+
+
+def _calls_own_factory(reset: FuncInfo, value: ast.AST, loop_var: str, field_name: str) -> bool:
+    """``<attribute>.default.factory()`` in a loop over the attrs fields of the class: the call of the factory that the class
+    body declares for this field (``field(factory=dict)`` / ``attrs.Factory(dict)`` as default).  True if that factory is a
+    constructor of a builtin container (a new, empty one per call); False if the field declares no factory (the expression
+    fails) ; a factory that is not read raises AnalysisError."""
+    if not (isinstance(value, ast.Call) and not value.args and not value.keywords):
+        return False
+    f = value.func
+    if not (isinstance(f, ast.Attribute) and f.attr == "factory" and isinstance(f.value, ast.Attribute) and f.value.attr == "default"
+            and isinstance(f.value.value, ast.Name) and f.value.value.id == loop_var):
+        return False
+    if reset.cls is None:
+        return False
+    decl = next((st for st in reset.cls.node.body if isinstance(st, ast.AnnAssign) and isinstance(st.target, ast.Name) and st.target.id == field_name), None)
+    if decl is None or not isinstance(decl.value, ast.Call):
+        return False
+    factory = next((k.value for k in decl.value.keywords if k.arg == "factory"), None)
+    if factory is None:
+        default = next((k.value for k in decl.value.keywords if k.arg == "default"), None)
+        if isinstance(default, ast.Call) and unparse(default.func).split(".")[-1] == "Factory" and len(default.args) == 1 and not default.keywords:
+            factory = default.args[0]
+    if factory is None:
+        return False
+    if isinstance(factory, (ast.Name, ast.Attribute)):
+        if unparse(factory) in {"dict", "list", "set", "OrderedDict", "collections.OrderedDict"}:
+            return True
+    if isinstance(factory, ast.Lambda) and not [*factory.args.args, *factory.args.posonlyargs, *factory.args.kwonlyargs] and factory.args.vararg is None and factory.args.kwarg is None:
+        if _new_container(factory.body):
+            return True
+        if isinstance(factory.body, (ast.Name, ast.Attribute, ast.Constant)):
+            return False  # hands out an object that exists already
+    raise AnalysisError(f"R-EFFECT: {reset.qual} calls the declared factory of field `{field_name}` (`{unparse(factory)[:40]}`): cannot decide whether it returns a new container")
+
+
+def fresh_instance_calls(tree: Tree, freshness: "Freshness", cls, e: ast.AST, fn: FuncInfo, depth: int = 0) -> list[tuple[ast.Call, FuncInfo]] | None:
+    """``e`` (evaluated in ``fn``) is a NEW instance of ``cls`` on every path: the constructor calls that build it, else None.
+    Understood: ``Cls(...)``; ``cls(...)`` inside a classmethod of the class; a call of a function / staticmethod / classmethod
+    of the package (not memoised, no generator) every ``return`` of which hands back such an instance (also through a local)."""
+    if depth > 6 or not isinstance(e, ast.Call):
+        return None
+    target = tree.resolve(fn.module, e.func, fn)
+    if target == cls.qual:
+        return [(e, fn)]
+    if isinstance(e.func, ast.Name) and e.func.id == "cls" and fn.cls is not None and fn.outer is None and fn.params[:1] == ["cls"] \
+            and any(unparse(d).split(".")[-1] == "classmethod" for d in fn.node.decorator_list) and (fn.cls.qual == cls.qual or fn.cls in tree.mro(cls)):
+        return [(e, fn)]
+    g = tree.funcs.get(target or "")
+    if g is None or g.qual in freshness.memo or any(isinstance(n, (ast.Yield, ast.YieldFrom)) for n in walk_function(g.node, nested=False)):
+        return None
+    if g.cls is not None and (any(sub.methods.get(g.name) not in {None, g} for sub in tree.subclasses(g.cls))):
+        return None  # an overriding method may be the one that runs
+    returns = [n for n in walk_function(g.node, nested=False) if isinstance(n, ast.Return)]
+    if not returns:
+        return None
+    out: list[tuple[ast.Call, FuncInfo]] = []
+    rd = freshness.rd(g)
+    for r in returns:
+        values = [r.value]
+        if isinstance(r.value, ast.Name):
+            defs = rd.reaching(r.value)
+            if not defs or any(d.kind != "assign" or d.value is None or d.index is not None or isinstance(d.node, ast.AugAssign) for d in defs):
+                return None  # (a local that is updated after its creation is a `store` definition: not read here)
+            values = [d.value for d in defs]
+        for v in values:
+            found = fresh_instance_calls(tree, freshness, cls, v, g, depth + 1) if v is not None else None
+            if found is None:
+                return None
+            out += found
+    return out
+
+
+def constructor_arguments(tree: Tree, cls, fields: list[str], call: ast.Call, owner: FuncInfo) -> dict[str, ast.AST]:
+    """field -> the expression that ``Cls(...)`` passes for it (generated constructor of an attrs class / dataclass / NamedTuple:
+    the annotated fields in order of declaration, by position or by name)."""
+    if not call.args and not call.keywords:
+        return {}
+    if any(tree.lookup_method(cls, name) is not None for name in ("__init__", "__new__")):
+        raise AnalysisError(f"R-EFFECT: {cls.qual} has a hand-written constructor: what `{unparse(call)[:50]}` stores in its fields is not read")
+    if any(isinstance(a, ast.Starred) for a in call.args) or any(k.arg is None for k in call.keywords):
+        raise AnalysisError(f"R-EFFECT: `{unparse(call)[:50]}` in {owner.qual} passes */** arguments: what the fields receive is not read")
+    init_fields = []
+    for st in cls.node.body:
+        if isinstance(st, ast.AnnAssign) and isinstance(st.target, ast.Name):
+            no_init = isinstance(st.value, ast.Call) and any(k.arg == "init" and isinstance(k.value, ast.Constant) and k.value.value is False for k in st.value.keywords)
+            if not no_init:
+                init_fields.append(st.target.id)
+    if len(call.args) > len(init_fields):
+        raise AnalysisError(f"R-EFFECT: `{unparse(call)[:50]}` passes more arguments than {cls.qual} has fields")
+    out: dict[str, ast.AST] = dict(zip(init_fields, call.args))
+    for k in call.keywords:
+        name = k.arg.lstrip("_") if k.arg not in init_fields else k.arg  # attrs strips the leading underscore of private fields
+        match = [f for f in init_fields if f == k.arg or f.lstrip("_") == name]
+        if len(match) != 1:
+            raise AnalysisError(f"R-EFFECT: `{unparse(call)[:50]}`: keyword `{k.arg}` is not a field of {cls.qual}")
+        out[match[0]] = k.value
+    return out
+
+
+def _names_existing_object(tree: Tree, freshness: "Freshness", name: ast.Name, fn: FuncInfo) -> bool:
+    """The name is a parameter of the function, or a module-level object (positive evidence for an object that was not created
+    by this statement)."""
+    defs = freshness.rd(fn).reaching(name) if isinstance(name.ctx, ast.Load) else set()
+    if defs:
+        return all(d.kind == "param" for d in defs)
+    target = tree.resolve(fn.module, name, fn)
+    return bool(target) and name.id in fn.module.toplevel and not isinstance(fn.module.toplevel[name.id], (ast.FunctionDef, ast.ClassDef))
 
 
 def check_effects(ctx: Check, tree: Tree, reach: dict[str, FuncInfo]) -> None:
@@ -585,13 +699,18 @@ def check_effects(ctx: Check, tree: Tree, reach: dict[str, FuncInfo]) -> None:
     body = [s for s in formulate.node.body if not (isinstance(s, ast.Expr) and isinstance(s.value, ast.Constant))]
     frd = RD(formulate.node)
 
+    freshness = Freshness(tree)
+    constructions: list[tuple[ast.Call, FuncInfo]] = []  # the `_HelicityModelIngredients(...)` calls that build the fresh instance
+
     def is_fresh_instance(e) -> bool:
-        if isinstance(e, ast.Call) and not e.args and not e.keywords and tree.resolve(formulate.module, e.func, formulate) == ing.qual:
-            return True
         if isinstance(e, ast.Name):
             defs = list(frd.reaching(e))
             return bool(defs) and all(d.value is not None and d.index is None and is_fresh_instance(d.value) for d in defs)
-        return False
+        found = fresh_instance_calls(tree, freshness, ing, e, formulate)
+        if found is None:
+            return False
+        constructions.extend(c for c in found if all(c[0] is not k[0] for k in constructions))
+        return True
 
     scratch, how, first = None, None, (body[0] if body else None)
     for st in body:
@@ -615,15 +734,26 @@ def check_effects(ctx: Check, tree: Tree, reach: dict[str, FuncInfo]) -> None:
     # 2. the re-initialisation re-creates every field
     if how == "fresh":
         shared = []
-        for st in ing.node.body:
-            if isinstance(st, ast.AnnAssign) and isinstance(st.target, ast.Name):
-                v = st.value
-                per_instance = isinstance(v, ast.Call) and any(k.arg in {"factory", "default_factory"} for k in v.keywords)
-                immutable_default = v is None or isinstance(v, ast.Constant)
-                if not (per_instance or immutable_default):
-                    shared.append(st.target.id)
+        for call, owner in constructions:
+            passed = constructor_arguments(tree, ing, fields, call, owner)
+            for st in ing.node.body:
+                if isinstance(st, ast.AnnAssign) and isinstance(st.target, ast.Name) and st.target.id not in shared:
+                    if st.target.id in passed:
+                        # the constructor call hands the field its value: a container created by the call itself, or an object that exists already
+                        arg = passed[st.target.id]
+                        if _new_container(arg) or freshness.fresh(arg, owner):
+                            continue
+                        if isinstance(arg, ast.Attribute) or (isinstance(arg, ast.Name) and _names_existing_object(tree, freshness, arg, owner)):
+                            shared.append(st.target.id)
+                            continue
+                        raise AnalysisError(f"R-EFFECT: {owner.qual} builds the scratch state with `{st.target.id}={unparse(arg)[:40]}`: cannot decide whether that is a new container")
+                    v = st.value
+                    per_instance = isinstance(v, ast.Call) and any(k.arg in {"factory", "default_factory"} for k in v.keywords)
+                    immutable_default = v is None or isinstance(v, ast.Constant)
+                    if not (per_instance or immutable_default):
+                        shared.append(st.target.id)
         ctx.verdict(not shared, "R-EFFECT", f"{ing.qual}.reset::all-fields", tree.loc(ing.node),
-                    f"a fresh _HelicityModelIngredients() gives each of its {len(fields)} fields its own container (per-instance factories)", shared or None)
+                    f"a fresh _HelicityModelIngredients() gives each of its {len(fields)} fields its own container (per-instance factories / new containers handed to the constructor)", shared or None)
     else:
         reset = ing.methods.get("reset")
         if reset is None:
@@ -636,7 +766,7 @@ def check_effects(ctx: Check, tree: Tree, reach: dict[str, FuncInfo]) -> None:
     n_writes = 0
     n_through = 0
     sites = CallSites(tree, reach)
-    freshness = Freshness(tree)
+    survival = Survival(tree, sites, freshness, scratch_attr, reach)
     for q, fn in sorted(reach.items()):
         if not q.startswith("ampform"):
             continue
@@ -680,8 +810,21 @@ def check_effects(ctx: Check, tree: Tree, reach: dict[str, FuncInfo]) -> None:
                     continue  # constructing a fresh object
                 if fn.cls is not None and fn.cls.qual == "ampform.helicity.align.dpd::_DPDAlignmentWignerGenerator":
                     continue  # per-call generator object created inside the (memoised) aligned-amplitude function; see R-CACHE for its dict
+                # a write to `self.<field>` is a write to the RECEIVER: it happens to whatever stands before the dot at the
+                # call sites on the formulate path (the builder's methods are reached from formulate(), whose receiver is the
+                # builder: that state survives; a method of the scratch-state class / of an object created during the call
+                # is reached through `self.<scratch>.method()` / `<new object>.method()`)
+                why = "the class object outlives the call" if base == "cls" else None
+                if why is None:
+                    top = fn
+                    while top.outer is not None and "self" not in top.params:
+                        top = top.outer
+                    why = survival.param(top, "self", set()) if survival.is_receiver(top, "self") else "the receiver is not the first parameter of a method"
+                if why is None:
+                    n_through += 1
+                    continue
                 ctx.violation("R-EFFECT", key, where, f"{q}: `{unparse(node)[:60]}` writes object state that survives formulate()",
-                              "state outside the reset scratch area makes the next formulate() depend on this one")
+                              f"state outside the reset scratch area makes the next formulate() depend on this one ({why})")
                 continue
             if base in params:
                 if rd is None:
@@ -698,7 +841,7 @@ def check_effects(ctx: Check, tree: Tree, reach: dict[str, FuncInfo]) -> None:
                     continue
                 # the write happens to whatever the callers on the formulate path hand in: it is
                 # harmless iff every one of them passes an object created during the call (or scratch state)
-                why = argument_survives(tree, sites, freshness, fn, base, scratch_attr, set())
+                why = survival.param(fn, base, set())
                 if why is None:
                     n_through += 1
                     continue
@@ -712,51 +855,166 @@ def check_effects(ctx: Check, tree: Tree, reach: dict[str, FuncInfo]) -> None:
     ctx.ok("R-EFFECT", tree.loc(formulate.node), f"{n_writes} write sites in {len(reach)} functions reachable from formulate: locals, constructor state or reset scratch state only")
 
 
-def argument_survives(tree: Tree, sites: CallSites, freshness: Freshness, g: FuncInfo, param: str, scratch_attr: str, busy: set[tuple[str, str]], depth: int = 0) -> str | None:
-    """``g`` writes to (the object bound to) its parameter ``param``.  None if every call site on the
-    formulate path passes an object that cannot outlive formulate() - created during the call, the
-    reset scratch state, state of an object under construction, or the caller's own argument for
-    which the same holds; otherwise the reason."""
-    if (g.qual, param) in busy:
-        return None
-    if depth > 8:
-        return "call chain too deep to follow"
-    busy = busy | {(g.qual, param)}
-    callers = sites.of(g)
-    if not callers:
-        return "no call site on the formulate path was found for it, so what it receives is unknown"
-    for caller, call in callers:
-        how, arg = bind_argument(tree, call, g, param)
-        if how == "default":
-            continue  # a mutable default that is written to is R-SHARED's finding
-        at = f"{caller.qual} (line {getattr(call, 'lineno', '?')})"
-        if how == "unknown" or arg is None:
-            return f"{at} passes it through */** arguments"
-        if freshness.fresh(arg, caller):
-            continue
-        txt = unparse(arg)
-        head = txt.split(".")[0].split("[")[0]
-        if head in {"self", "cls"} and isinstance(arg, (ast.Attribute, ast.Subscript)):
-            first_attr = txt.split(".")[1].split("[")[0] if "." in txt else ""
-            if first_attr.lstrip("_").endswith(scratch_attr.lstrip("_")):
-                continue
-            if caller.name in {"__init__", "__new__", "__attrs_post_init__", "reset"}:
-                continue
-            return f"{at} passes `{txt[:40]}`, object state that survives formulate()"
-        if isinstance(arg, ast.Name) and isinstance(arg.ctx, ast.Load):
-            defs = freshness.rd(caller).reaching(arg)
-            if defs and all(d.kind == "param" for d in defs) and arg.id not in {"self", "cls"}:
-                if caller.name in {"__init__", "__new__"}:
+class Survival:
+    """Can the object that a parameter / an expression denotes outlive formulate()?
+
+    ``param`` judges a parameter of ``g`` at the call sites on the formulate path; the RECEIVER of a
+    method (its first parameter) is a parameter like any other: it is whatever stands before the
+    dot at the call sites (``Class.method(obj)``: the first argument), and the receiver of
+    formulate() itself is the builder, which does survive.  ``value`` judges an expression in the
+    function that evaluates it: an object created during the call, the reset scratch state, state
+    of an object under construction, a local that was bound to one of these, or the function's own
+    parameter for which the same holds at its call sites."""
+
+    def __init__(self, tree: Tree, sites: CallSites, freshness: Freshness, scratch_attr: str, reach: dict[str, FuncInfo]) -> None:
+        self.tree, self.sites, self.freshness, self.scratch_attr, self.reach = tree, sites, freshness, scratch_attr, reach
+        self._as_value: dict[str, str | None] = {}
+
+    # ---------------------------------------------------------------- parameters
+    @staticmethod
+    def _decorated(g: FuncInfo, name: str) -> bool:
+        return any(unparse(d).split(".")[-1] == name for d in g.node.decorator_list)
+
+    def is_receiver(self, g: FuncInfo, param: str) -> bool:
+        a = g.node.args
+        positional = [x.arg for x in [*a.posonlyargs, *a.args]]
+        return g.cls is not None and g.outer is None and not self._decorated(g, "staticmethod") and bool(positional) and positional[0] == param
+
+    def taken_as_value(self, g: FuncInfo) -> str | None:
+        """A place on the formulate path where ``<object>.<method>`` is read without being called (a bound
+        method handed on): the receiver of the later call is not visible at any call site."""
+        if g.qual not in self._as_value:
+            found = None
+            for q, f in sorted(self.reach.items()):
+                if not q.startswith("ampform"):
                     continue
+                for n in walk_function(f.node, nested=False):
+                    if isinstance(n, ast.Attribute) and n.attr == g.name and isinstance(n.ctx, ast.Load):
+                        par = getattr(n, "_parent", None)
+                        if not (isinstance(par, ast.Call) and par.func is n):
+                            found = f"{q} (line {getattr(n, 'lineno', '?')}): `{unparse(n)[:40]}`"
+                            break
+                if found:
+                    break
+            self._as_value[g.qual] = found
+        return self._as_value[g.qual]
+
+    def bind_receiver(self, call: ast.Call, g: FuncInfo) -> tuple[str, ast.AST | None]:
+        f = call.func
+        if not isinstance(f, ast.Attribute):
+            return "unknown", None
+        if isinstance(f.value, ast.Call) and isinstance(f.value.func, ast.Name) and f.value.func.id == "super":
+            return "super", None
+        recv = self.tree.resolve(call._module, f.value, self.tree.func_of(call))  # type: ignore[attr-defined]
+        if recv in self.tree.classes:
+            # Class.method(obj, ...): the receiver is the first positional argument
+            if call.args and not isinstance(call.args[0], ast.Starred):
+                return "expr", call.args[0]
+            return "unknown", None
+        return "expr", f.value
+
+    def param(self, g: FuncInfo, param: str, busy: set[tuple[str, str]], depth: int = 0) -> str | None:
+        """None if every call site on the formulate path passes an object that cannot outlive
+        formulate(); otherwise the reason."""
+        if (g.qual, param) in busy:
+            return None
+        if depth > 8:
+            return "call chain too deep to follow"
+        busy = busy | {(g.qual, param)}
+        receiver = self.is_receiver(g, param)
+        if receiver:
+            if g.qual == FORMULATE:
+                return "the receiver of formulate() is the builder itself, which outlives the call"
+            if self._decorated(g, "classmethod"):
+                return "the receiver of a classmethod is the class object, which outlives the call"
+        callers = self.sites.of(g)
+        if not callers:
+            return "no call site on the formulate path was found for it, so what it receives is unknown"
+        if receiver:
+            handed_on = self.taken_as_value(g)
+            if handed_on is not None:
+                raise AnalysisError(f"R-EFFECT: {g.qual} writes to its receiver, and {handed_on} reads a method of that name without calling it: the receiver of that use is not visible at a call site")
+        for caller, call in callers:
+            how, arg = self.bind_receiver(call, g) if receiver else bind_argument(self.tree, call, g, param)
+            if how == "default":
+                continue  # a mutable default that is written to is R-SHARED's finding
+            at = f"{caller.qual} (line {getattr(call, 'lineno', '?')})"
+            if how == "super":
                 top = caller
-                while top.outer is not None and arg.id not in top.params:
+                while top.outer is not None and "self" not in top.params:
                     top = top.outer
-                inner = argument_survives(tree, sites, freshness, top, arg.id, scratch_attr, busy, depth + 1)
+                if caller.name in {"__init__", "__new__", "__attrs_post_init__"}:
+                    continue
+                inner = self.param(top, "self", busy, depth + 1) if "self" in top.params else "the receiver of the super() call is unknown"
                 if inner is None:
                     continue
-                return f"{at} passes its own argument `{arg.id}`: {inner}"
-        return f"{at} passes `{txt[:40]}`, which is not provably an object created during the call"
-    return None
+                return f"{at} passes its own receiver through super(): {inner}"
+            if how == "unknown" or arg is None:
+                return f"{at} passes it through */** arguments" if not receiver else f"{at} calls it in a form whose receiver is not visible"
+            why = self.value(arg, caller, busy, depth)
+            if why is not None:
+                return f"{at} passes {why}"
+        return None
+
+    # ---------------------------------------------------------------- expressions
+    def value(self, expr: ast.AST, caller: FuncInfo, busy: set[tuple[str, str]], depth: int = 0, seen: frozenset[int] = frozenset()) -> str | None:
+        if self.freshness.fresh(expr, caller):
+            return None
+        txt = unparse(expr)
+        head = txt.split(".")[0].split("[")[0]
+        if head in {"self", "cls"} and isinstance(expr, (ast.Attribute, ast.Subscript)):
+            first_attr = txt.split(".")[1].split("[")[0] if "." in txt else ""
+            if first_attr.lstrip("_").endswith(self.scratch_attr.lstrip("_")):
+                return None
+            if caller.name in {"__init__", "__new__", "__attrs_post_init__", "reset"}:
+                return None
+            return f"`{txt[:40]}`, object state that survives formulate()"
+        unproven = f"`{txt[:40]}`, which is not provably an object created during the call"
+        if isinstance(expr, ast.Name) and isinstance(expr.ctx, ast.Load) and depth <= 8:
+            defs = self.freshness.rd(caller).reaching(expr)
+            if not defs:
+                return unproven
+            for d in sorted(defs, key=lambda d: (d.lineno, d.kind)):
+                why = self._def(d, expr, caller, busy, depth, seen)
+                if why is not None:
+                    return why
+            return None
+        return unproven
+
+    def _def(self, d: Def, expr: ast.Name, caller: FuncInfo, busy: set[tuple[str, str]], depth: int, seen: frozenset[int]) -> str | None:
+        unproven = f"`{expr.id}`, which is not provably an object created during the call"
+        if id(d) in seen:
+            return None  # a cycle of in-place updates adds no new origin
+        seen = seen | {id(d)}
+        owner = self.tree.func_of(d.node) or caller
+        if d.kind == "param":
+            if d.name == "cls":
+                return unproven
+            if owner.name in {"__init__", "__new__"} or (d.name == "self" and owner.name == "__attrs_post_init__"):
+                return None  # (state of) an object under construction
+            top = owner
+            while top.outer is not None and d.name not in top.params:
+                top = top.outer
+            if d.name == "self" and not self.is_receiver(top, "self"):
+                return unproven
+            inner = self.param(top, d.name, busy, depth + 1)
+            if inner is None:
+                return None
+            return f"its own argument `{d.name}`: {inner}"
+        if d.kind == "assign" and d.value is not None and d.index is None and not isinstance(d.node, ast.AugAssign):
+            # a local name for an object: it is what it was bound to
+            return self.value(d.value, owner, busy, depth + 1, seen)
+        if d.kind in {"store", "aug"}:
+            # an object that is updated in place stays the object it was
+            before = [dep for dep in d.deps if dep.name == d.name and dep is not d]
+            if not before:
+                return unproven
+            for dep in sorted(before, key=lambda x: (x.lineno, x.kind)):
+                why = self._def(dep, expr, caller, busy, depth, seen)
+                if why is not None:
+                    return why
+            return None
+        return unproven
 
 
 # --------------------------------------------------------------------------- R-SHARED
